@@ -116,6 +116,7 @@ func init() {
 			"responses after a lazy time-out show the written completion half (CompletedOn = &written.CompletedOn); the only clock in coroutine code is c.Time() (R6 objects, R14)",
 		},
 		[]string{"tick placement and the three-way race (reduced to C01's write-once)", "a fresh create with a timeout already in the past answers 201 pending (see DESIGN.md §5 C04: read as outside the statement)"}).
+		rule("R7-decision-tables", ruleTables(tblComplete, tblRead, tblCreate, tblTimedoutState)).
 		rule("R9-command-provenance", ruleCmdProvenance("UpdatePromiseCommand", "ReadPromisesCommand")).
 		rule("R1R2-sql-spec", ruleSQLSpec(kindList("ReadPromises", "UpdatePromise"))).
 		rule("R6-object-provenance", ruleObjProvenance("Promise", "Promise.patch")).
@@ -130,6 +131,7 @@ func init() {
 			"derived ids: callback id = f(root, leaf), subscription id = f(promise, id), embedded raw; injectivity of the format (R15: finding F30)",
 		},
 		[]string{"both orders inside one store batch (engine)", "crash between steps (C06)"}).
+		rule("R7-decision-tables", ruleTables(tblCreateCallback, tblCreateSubscription)).
 		rule("R5-completion-group", ruleCompletionGroup).
 		rule("R5-groups", ruleWhoConstructs(groupOwners)).
 		rule("R9-command-provenance", ruleCmdProvenance("CreateCallbackCommand", "CompleteTasksCommand", "CreateTasksCommand", "DeleteCallbacksCommand", "UpdatePromiseCommand")).
@@ -148,6 +150,7 @@ func init() {
 			"0 rows ⇒ retry in claim and complete; the response shows what was written (R6)",
 		},
 		[]string{"interleavings of several workers", "ttl arithmetic overflow"}).
+		rule("R7-decision-tables", ruleTables(tblClaim, tblCompleteTask)).
 		rule("R1R2-sql-spec", ruleSQLSpec(kindsOf("tasks"))).
 		rule("schema", ruleSchema(taskSchema)).
 		rule("R9-command-provenance", ruleCmdProvenance("UpdateTaskCommand", "CreateTaskCommand", "HeartbeatTasksCommand", "ReadTasksCommand")).
@@ -179,6 +182,7 @@ func init() {
 			"0 rows ⇒ the answer does not claim the lock; the lock shown is the one written (R6)",
 		},
 		[]string{"interleavings", "clock positions beyond comparator strictness"}).
+		rule("R7-decision-tables", ruleTables(tblAcquire, tblRelease)).
 		rule("R1R2-sql-spec", ruleSQLSpec(kindsOf("locks"))).
 		rule("R1-table-writers", ruleTableWriters("locks", true)).
 		rule("schema", ruleSchema(lockSchema)).
@@ -193,6 +197,7 @@ func init() {
 			"the advance is an extra command of the promise creation: one transaction (R5)",
 		},
 		[]string{"the cron library", "catch-up counts", "crashes mid-cycle (C06)", "template engine behaviour on client templates (findings F8, F10, F17: see C13/C20)"}).
+		rule("R7-decision-tables", ruleTables(tblCreateSchedule, tblDeleteSchedule)).
 		rule("R1R2-sql-spec", ruleSQLSpec(kindsOf("schedules"))).
 		rule("schema", ruleSchema(scheduleSchema)).
 		rule("R9-command-provenance", ruleCmdProvenance("CreatePromiseCommand", "UpdateScheduleCommand", "CreateScheduleCommand", "ReadSchedulesCommand", "DeleteScheduleCommand")).
@@ -229,4 +234,22 @@ func init() {
 		rule("R13-http-code", ruleHttpCode).
 		rule("R13-front-end-siblings", ruleFrontEndSiblings).
 		rule("R10-http-reply-once", ruleHttpReplyOnce)
+}
+
+func init() {
+	regProp("C03",
+		[]string{
+			"the status decision of create (fresh / existing / overdue × strict × key match), complete (not found / pending before or after the deadline / completed × strict × key match × state) and of read is extracted path by path from the control-flow graph and equals the table written from the statement (R7)",
+			"Key.Match is true only for two non-nil equal keys (R7, truth table)",
+			"no repeat changes the promise: the only writes reachable from the existing-promise branches are the forced time-out group; the promise insert is ON CONFLICT DO NOTHING and the task insert of create-with-task is conditional on it, in both backends (R5/R1); a lost guarded write retries (R6)",
+		},
+		[]string{"retries racing with the original (C01/C02's discipline)", "histories and fault sequences"}).
+		rule("R7-decision-tables", ruleTables(tblCreate, tblComplete, tblRead)).
+		rule("R7-key-match", ruleKeyMatch).
+		rule("R1R2-sql-spec", ruleSQLSpec(kindList("CreatePromise", "UpdatePromise", "CreatePromiseAndTask", "CreateTask"))).
+		rule("R5-groups", ruleWhoConstructs(groupOwners)).
+		rule("R5-completion-group", ruleCompletionGroup).
+		rule("R5-creation-group", ruleCreationGroup).
+		rule("R9-command-provenance", ruleCmdProvenance("UpdatePromiseCommand", "CreatePromiseCommand", "CreateTaskCommand")).
+		rule("R6-cas", ruleCAS("CreatePromise", "CreatePromiseAndTask", "CompletePromise"))
 }
